@@ -20,6 +20,8 @@ pub fn unify_link(
     ctx: &Context,
     total: usize,
 ) -> Unified {
+    #[cfg(feature = "verif")]
+    crate::verif_hooks::bump(2);
     if let Some(constraint) = &constraints.pop_constr() {
         let (left, right) = (&constraint.parent, &constraint.child);
 
